@@ -44,6 +44,7 @@ type job struct {
 	IDs  []int64 `json:"ids,omitempty"`
 	Refs [][]int `json:"refs,omitempty"`
 	Ins  int     `json:"ins"`
+	Del  int     `json:"del,omitempty"` // > 0: definition Del (from 1) is removed before the insertion
 	// text
 	Text     string `json:"text,omitempty"`
 	KeepLits bool   `json:"keep_lits,omitempty"`
@@ -144,6 +145,11 @@ func evalJob(j job, phase func(string)) jobResult {
 			// print -> insert an unnumbered, operand-free definition after position Ins -> print
 			nd := &metadata.Tuple{}
 			nd.SetID(-1)
+			if j.Del > 0 && j.Del <= len(ts) {
+				// (no other definition refers to it: MetadataHist!Deletable)
+				m.MetadataDefs = append(append([]metadata.Definition{}, m.MetadataDefs[:j.Del-1]...), m.MetadataDefs[j.Del:]...)
+				ts = append(append([]metadata.Definition{}, ts[:j.Del-1]...), ts[j.Del:]...)
+			}
 			defs := append([]metadata.Definition{}, m.MetadataDefs[:j.Ins]...)
 			defs = append(defs, nd)
 			defs = append(defs, m.MetadataDefs[j.Ins:]...)
